@@ -111,6 +111,9 @@ class SequenceMutator(CollectionAttrMutator):
         )
 
     def remove_item(self, value_or_index, *, by_index=MISSING):  # pylint: disable=arguments-differ
+        if self.collection is MISSING:
+            # (Nothing can be found in a collection that does not exist yet.)
+            self.collection = self._create_collection()
         index, _ = self._extractor(
             value_or_index, by_index=by_index, raise_if_missing=True
         )
